@@ -6,6 +6,7 @@ import (
 	"sort"
 	"strings"
 	"sync"
+	"sync/atomic"
 	"testing"
 
 	z "github.com/Oudwins/zog"
@@ -33,7 +34,7 @@ type c08Step struct {
 
 type c08Case struct {
 	Schemas []c08Schema `json:"schemas"`
-	Plans   [][]c08Step `json:"plans"` // one plan per goroutine
+	Plans   [][]c08Step `json:"plans"`  // one plan per goroutine
 	Rounds  int         `json:"rounds"` // each goroutine repeats its plan this many times
 }
 
@@ -47,12 +48,12 @@ func observe(res *model.Result) string {
 }
 
 type builtSchema struct {
-	schema z.ZogSchema
-	typ    reflect.Type
-	env    *model.Env
-	mode   string
-	inputs []model.Val
-	expect []string
+	schema  z.ZogSchema
+	typ     reflect.Type
+	env     *model.Env
+	mode    string
+	inputs  []model.Val
+	specIss []string
 }
 
 func (b *builtSchema) run(i int) *model.Result {
@@ -73,17 +74,30 @@ func propC08(c c08Case) hh.Verdict {
 		env := &model.Env{Silent: true}
 		sch, typ := model.Build(s.Root, env)
 		b := &builtSchema{schema: sch, typ: typ, env: env, mode: s.Mode, inputs: s.Inputs}
+		// independent expectation for the issues: the executable specification (no zog code involved,
+		// so state that zog initialises lazily is still cold when the goroutines start)
 		for k := range s.Inputs {
-			res := b.run(k)
-			if res.Panic != nil {
-				return hh.Verdict{Skip: "sequential-run-panics"}
+			cs := model.Case{Root: s.Root, Input: s.Inputs[k], Exec: model.Exec{Mode: s.Mode}}
+			dest := reflect.New(typ)
+			var in any
+			if s.Mode == "validate" {
+				model.SetFromVal(dest.Elem(), cs.Input)
+			} else {
+				in = cs.Input.Go()
 			}
-			b.expect = append(b.expect, observe(res))
+			spec := model.Spec(s.Root, model.SpecCfg{Mode: s.Mode}, in, model.DeepCopy(dest.Elem()))
+			if spec.Unknown != "" {
+				b.specIss = append(b.specIss, "?")
+			} else {
+				b.specIss = append(b.specIss, fmt.Sprint(spec.Issues))
+			}
 		}
 		bs[i] = b
 	}
+	type obsKey struct{ s, i int }
 	var mu sync.Mutex
 	var firstErr string
+	seen := map[obsKey]string{} // first concurrent observation per (schema, input)
 	var wg sync.WaitGroup
 	start := make(chan struct{})
 	for g, plan := range c.Plans {
@@ -96,12 +110,27 @@ func propC08(c c08Case) hh.Verdict {
 					b := bs[st.S]
 					res := b.run(st.I)
 					got := observe(res)
-					if got != b.expect[st.I] {
-						mu.Lock()
-						if firstErr == "" {
-							firstErr = fmt.Sprintf("goroutine %d round %d step %d: schema #%d input #%d [%s] returned\n  %s\nrunning alone it returns\n  %s", g, r, k, st.S, st.I, b.mode, got, b.expect[st.I])
-						}
-						mu.Unlock()
+					issues := fmt.Sprint(res.Norm(false))
+					mu.Lock()
+					prev, ok := seen[obsKey{st.S, st.I}]
+					if !ok {
+						seen[obsKey{st.S, st.I}] = got
+						prev = got
+					}
+					bad := ""
+					switch {
+					case res.Panic != nil:
+						bad = fmt.Sprintf("panicked: %v", res.Panic)
+					case prev != got:
+						bad = fmt.Sprintf("returned\n  %s\nwhile another concurrent call of the same schema and input returned\n  %s", got, prev)
+					case b.specIss[st.I] != "?" && b.specIss[st.I] != issues:
+						bad = fmt.Sprintf("returned issues\n  %s\nbut the specification of this call gives\n  %s", issues, b.specIss[st.I])
+					}
+					if bad != "" && firstErr == "" {
+						firstErr = fmt.Sprintf("goroutine %d round %d step %d: schema #%d input #%d [%s] %s", g, r, k, st.S, st.I, b.mode, bad)
+					}
+					mu.Unlock()
+					if bad != "" {
 						return
 					}
 					if st.Collect {
@@ -119,6 +148,13 @@ func propC08(c c08Case) hh.Verdict {
 	wg.Wait()
 	if firstErr != "" {
 		return hh.Fail("%s", firstErr)
+	}
+	// every concurrent result must also equal what the call returns running alone (afterwards, sequentially)
+	for k, got := range seen {
+		res := bs[k.s].run(k.i)
+		if alone := observe(res); alone != got {
+			return hh.Fail("schema #%d input #%d [%s]: concurrent calls returned\n  %s\nrunning alone it returns\n  %s", k.s, k.i, bs[k.s].mode, got, alone)
+		}
 	}
 	users := map[int]map[int]bool{}
 	for g, plan := range c.Plans {
@@ -148,6 +184,7 @@ func genC08(rt *rapid.T, thorough bool) c08Case {
 		cfg.MaxDepth = 2
 		cfg.PPost, cfg.PCatch, cfg.PVary, cfg.PAbsent, cfg.PJunk, cfg.PTestSat, cfg.POpts = 0.15, 0.3, 0.4, 0.15, 0.08, 0.6, 0.15
 		cfg.NoDataTests = true
+		cfg.PLong = rapid.SampledFrom([]float64{0, 0.1, 0.5}).Draw(rt, "plong") // long slices: growth paths of caches and buffers
 		g := model.NewGen(rt, cfg)
 		root := g.GenNode(cfg.MaxDepth, true)
 		root.Number()
@@ -180,6 +217,22 @@ func genC08(rt *rapid.T, thorough bool) c08Case {
 	return c
 }
 
+var workloadCounter atomic.Int64
+
+func growLists(v *model.Val, n int) {
+	if len(v.L) >= 17 {
+		for i := 0; len(v.L) < n; i++ {
+			v.L = append(v.L, v.L[i])
+		}
+	}
+	for i := range v.L {
+		growLists(&v.L[i], n)
+	}
+	for i := range v.M {
+		growLists(&v.M[i].V, n)
+	}
+}
+
 // stripGatedPosts removes PostTransforms from schemas for which some input
 // produces issues: which PostTransforms run is then visit-order dependent by
 // the documented gating, so the result is not a function of the call alone.
@@ -187,12 +240,18 @@ func stripGatedPosts(c *c08Case) {
 	for i := range c.Schemas {
 		s := &c.Schemas[i]
 		s.Root.Number()
-		env := &model.Env{Silent: true}
-		sch, typ := model.Build(s.Root, env)
-		b := &builtSchema{schema: sch, typ: typ, env: env, mode: s.Mode, inputs: s.Inputs}
+		_, typ := model.Build(s.Root, &model.Env{Silent: true})
 		issues := false
 		for k := range s.Inputs {
-			if res := b.run(k); !res.NoIssues() || res.Panic != nil {
+			dest := reflect.New(typ)
+			var in any
+			if s.Mode == "validate" {
+				model.SetFromVal(dest.Elem(), s.Inputs[k])
+			} else {
+				in = s.Inputs[k].Go()
+			}
+			// decided by the specification, without running zog (no warm-up of lazily initialised state)
+			if spec := model.Spec(s.Root, model.SpecCfg{Mode: s.Mode}, in, model.DeepCopy(dest.Elem())); spec.Unknown != "" || len(spec.Issues) > 0 {
 				issues = true
 			}
 		}
@@ -205,7 +264,7 @@ func stripGatedPosts(c *c08Case) {
 func TestC08(t *testing.T) {
 	h := hh.Start(t, "C08",
 		"cases = workloads: 3-8 shared schema objects (all kinds, Catch, own-destination PostTransforms, struct-level tests) with 2-5 inputs each; 8-32 goroutines start together and each runs a generated plan of 5-25 (schema, input, collect-own-result?) steps for 6 (thorough 20) rounds against the SHARED schema objects with private inputs and destinations; binary built with -race; non-trivial = some schema object was used by >=2 goroutines in the workload; distinct = FNV-1a of the case JSON",
-		"every concurrent call must return exactly what the same call returned when the schemas were exercised sequentially beforehand (issues incl. messages, destination); any report of the Go race detector during the run is a violation (detected by the driver from the process output)",
+		"the goroutines start on COLD library state (expected issues come from the executable specification, not from a sequential warm-up run): every concurrent call must (a) report the issues the specification gives for it, (b) agree with every other concurrent call of the same schema and input, (c) equal what the same call returns running alone afterwards (issues incl. messages, destination); any report of the Go race detector during the run is a violation (detected by the driver from the process output). Lists marked long grow by 8 elements from workload to workload so that lazily grown shared state is extended while goroutines run",
 		"random schedules only: the harness does not own the scheduler; a schedule-dependent failure is reported with the workload, not with a replayable interleaving",
 		"PostTransforms are kept only on schemas none of whose inputs produce issues (otherwise their effect is visit-order dependent by the documented gating)")
 	defer h.Finish()
